@@ -188,7 +188,8 @@ REq(p, q) == p[1] * q[2] = q[1] * p[2]
 \* interval; it counts as split when its logged farthest point is one of the returned indexes.
 RECURSIVE RdpRun(_, _, _, _, _, _, _)
 RdpRun(P, T2, pending, kept, evs, k, Idx) ==
-  IF k > Len(evs) THEN [why |-> IF pending = {} THEN "ok" ELSE "intervals-left-unprocessed", kept |-> kept]
+  \* (intervals without interior points need not be visited, or logged, at all)
+  IF k > Len(evs) THEN [why |-> IF \A iv \in pending : iv[2] <= iv[1] + 1 THEN "ok" ELSE "intervals-left-unprocessed", kept |-> kept]
   ELSE
     LET ev == evs[k]  s == ev[1]  e == ev[2]
         inner == {i \in (s + 1)..(e - 1) : TRUE}
@@ -207,13 +208,13 @@ RdpRun(P, T2, pending, kept, evs, k, Idx) ==
               ELSE RdpRun(P, T2, (pending \ {<<s, e>>}) \cup {<<s, ev[3]>>, <<ev[3], e>>}, kept \cup {ev[3]}, evs, k + 1, Idx)
          ELSE IF RGt(M, T2) THEN [why |-> "interval-dropped-although-a-point-exceeds-the-threshold", kept |-> kept]
               ELSE RdpRun(P, T2, pending \ {<<s, e>>}, kept, evs, k + 1, Idx)
-SmallCoords(P) == \A i \in DOMAIN P : P[i][1] <= 40 /\ P[i][2] <= 40       \* keeps every product within 32 bits
+SmallCoords(P) == \A i \in DOMAIN P : -40 <= P[i][1] /\ P[i][1] <= 40 /\ -40 <= P[i][2] /\ P[i][2] <= 40       \* keeps every product within 32 bits
 TraceWhy(r, T2n, T2d) ==
   LET P == r.case.pts  n == Len(P) IN
   \* no events at all: the code path does not go through the instrumented loop (trivial input, or a refactoring that
   \* bypasses it); the property is then decided by ValidSimplification alone - never an alarm
   IF r.dp = <<>> THEN "ok"
-  ELSE IF n < 3 THEN "events-for-a-trivial-input"
+  ELSE IF n < 3 THEN "ok"                  \* (routing a trivial input through the worker is harmless)
   ELSE LET res == RdpRun(P, <<T2n, T2d>>, {<<0, n - 1>>}, {0, n - 1}, r.dp, 1, {r.idx[k] : k \in DOMAIN r.idx}) IN
        IF res.why # "ok" THEN res.why
        ELSE IF {r.idx[k] : k \in DOMAIN r.idx} # res.kept THEN "result-is-not-the-retained-set" ELSE "ok"
